@@ -348,15 +348,20 @@ func check(raw json.RawMessage) fw.Result {
 		top := float64(p.MarginTop.V()) + float64(p.PaddingTop.V()) + float64(p.BorderTopWidth.V())
 		y := top
 		for k, u := range obs[i].units {
+			mu := fl.units[first[i]+k]
+			y += mu.pre // top padding/border of the boxes that start with this unit
 			if !near(u.y, y) {
 				what := "is not at the top of the page content box"
 				if k > 0 {
 					what = "does not follow the previous unit"
 				}
+				if mu.pre > 0 || (k > 0 && fl.units[first[i]+k-1].post > 0) {
+					what += sprintf(" (with %g px of bottom padding/border closing before it and %g px of top padding/border opening on it)", y-mu.pre-prevEnd(obs[i].units, k, top), mu.pre)
+				}
 				res.Fail("unit-position", sprintf("page %d: unit %d (block %s) is at y=%g, expected %g: it %s", i+1, first[i]+k, u.id, u.y, y, what))
 				return res
 			}
-			y += u.h
+			y += u.h + mu.post
 		}
 	}
 
@@ -391,6 +396,9 @@ func check(raw json.RawMessage) fw.Result {
 		if v.firstOverflows {
 			res.Count("ends_first_unit_overflows", 1)
 		}
+		if v.deco {
+			res.Count("pages_with_decorations", 1)
+		}
 		// blank pages that follow
 		nb := 0
 		for j := i + 1; j < np && facts[j].Blank; j++ {
@@ -415,6 +423,10 @@ func check(raw json.RawMessage) fw.Result {
 			}
 			if v.kfInsideAvoid {
 				res.Count("ends_before_forced_break_inside_avoid_box", 1)
+			}
+			if v.decoStraddle {
+				// the content of the next unit would fit, the bottom padding/border it carries would not
+				res.Count("ends_bottom_decoration_does_not_fit", 1)
 			}
 			if nb != 0 {
 				res.Fail("blank-page-unexpected", sprintf("page %d ends at an unforced break and is followed by %d blank page(s)", i+1, nb))
@@ -447,6 +459,76 @@ func check(raw json.RawMessage) fw.Result {
 			if !ok {
 				res.Fail("forced-break-side", sprintf("page %d (%s) ends at a forced break after unit %d requiring side %v: %d blank page(s) follow, expected %v", i+1, facts[i].Side, last[i], sides, nb, want))
 				return res
+			}
+		}
+	}
+
+	// ---- box decorations: every fragment of a generated block has the top padding/border of the
+	// block iff it holds its first unit and the bottom ones iff it holds its last unit
+	// (box-decoration-break: slice), its border box closes right after the bottom decoration of its
+	// last unit, and no border box ends below the page content box on a page that holds more than
+	// its first unit.
+	if fl.decorated {
+		res.Count("docs_decorated", 1)
+		spans := map[string][2]int{} // id -> first and last unit
+		items := map[string]*Item{}
+		for bi := range fl.blocks {
+			b := &fl.blocks[bi]
+			spans[b.it.ID] = [2]int{b.start, b.start + b.n - 1}
+			items[b.it.ID] = b.it
+			if b.parent != nil {
+				sp, ok := spans[b.parent.ID]
+				if !ok {
+					sp = [2]int{b.start, b.start}
+				}
+				sp[1] = b.start + b.n - 1
+				spans[b.parent.ID] = sp
+				items[b.parent.ID] = b.parent
+			}
+		}
+		for i, p := range pages {
+			top := float64(p.MarginTop.V()) + float64(p.PaddingTop.V()) + float64(p.BorderTopWidth.V())
+			bottom := top + float64(p.Height.V())
+			// the first unit of a page is placed even when it does not fit (progress guarantee)
+			onlyFirst := first[i] >= 0 && last[i] == first[i] && fl.units[first[i]].tot() > float64(p.Height.V())
+			for _, g := range obs[i].frags {
+				it, sp := items[g.id], spans[g.id]
+				if it == nil {
+					continue
+				}
+				if g.last < g.first || first[i] < 0 {
+					res.Fail("empty-fragment", sprintf("page %d holds a fragment of block %s without any of its lines or blocks", i+1, g.id))
+					return res
+				}
+				u0, u1 := first[i]+g.first, first[i]+g.last
+				var wantT, wantB [2]float64 // border, padding
+				if u0 == sp[0] {
+					wantT = [2]float64{float64(it.BorT), float64(it.PadT)}
+				}
+				if u1 == sp[1] {
+					wantB = [2]float64{float64(it.BorB), float64(it.PadB)}
+				}
+				if !near(g.bt, wantT[0]) || !near(g.pt, wantT[1]) || !near(g.bb, wantB[0]) || !near(g.pb, wantB[1]) {
+					res.Fail("box-decoration", sprintf("page %d: the fragment of block %s holding units %d..%d (the block is units %d..%d) has border-top %g padding-top %g padding-bottom %g border-bottom %g, expected %g %g %g %g (declared: %d %d %d %d; box-decoration-break: slice)",
+						i+1, g.id, u0, u1, sp[0], sp[1], g.bt, g.pt, g.pb, g.bb, wantT[0], wantT[1], wantB[1], wantB[0], it.BorT, it.PadT, it.PadB, it.BorB))
+					return res
+				}
+				if u1 == sp[1] {
+					lu := obs[i].units[g.last]
+					want := lu.y + lu.h + fl.units[u1].ownPost
+					if it.Kind == "box" {
+						want = lu.y + lu.h + fl.units[u1].post
+					}
+					if !near(g.bottom(), want) {
+						res.Fail("box-decoration", sprintf("page %d: the border box of block %s ends at y=%g, expected %g (end of its last unit %d plus the bottom padding/border closing there)", i+1, g.id, g.bottom(), want, u1))
+						return res
+					}
+				}
+				res.Count("decorated_doc_fragments_checked", 1)
+				if !onlyFirst && g.bottom() > bottom && !near(g.bottom(), bottom) {
+					res.Fail("box-bottom-overflow", sprintf("page %d: the border box of block %s ends at y=%g, below the page content box (bottom %g), on a page that holds units %d..%d", i+1, g.id, g.bottom(), bottom, first[i], last[i]))
+					return res
+				}
 			}
 		}
 	}
@@ -536,6 +618,13 @@ func check(raw json.RawMessage) fw.Result {
 		res.Count("engine_gotext", 1)
 	}
 	return res
+}
+
+func prevEnd(units []obsUnit, k int, top float64) float64 {
+	if k == 0 {
+		return top
+	}
+	return units[k-1].y + units[k-1].h
 }
 
 func pageOf(last []int, u int) int {
